@@ -3,6 +3,7 @@
 //!   `run(ops) -> Vec<String>`                      (impl trace; one line per op line)
 use crate::util::{Rng, Stats};
 
+pub mod fxb;
 pub mod param;
 pub mod units;
 
@@ -15,6 +16,7 @@ pub fn gen(suite: &str, rng: &mut Rng, n: usize, thorough: bool, stats: &mut Sta
 	match suite {
 		"units" => units::gen(rng, n, thorough, stats),
 		"param" => param::gen(rng, n, thorough, stats),
+		"fxb" => fxb::gen(rng, n, thorough, stats),
 		_ => panic!("unknown suite {}", suite),
 	}
 }
@@ -23,6 +25,7 @@ pub fn run(suite: &str, ops: &[String]) -> Vec<String> {
 	match suite {
 		"units" => units::run(ops),
 		"param" => param::run(ops),
+		"fxb" => fxb::run(ops),
 		_ => panic!("unknown suite {}", suite),
 	}
 }
